@@ -10,6 +10,7 @@ import (
 	"testing"
 	"time"
 
+	commonmodels "github.com/lindb/common/models"
 	"github.com/lindb/common/pkg/logger"
 	protoMetricsV1 "github.com/lindb/common/proto/gen/v1/linmetrics"
 	"pgregory.net/rapid"
@@ -100,6 +101,39 @@ func (l *layoutSpec) nodeLacksCondKey(d *dataset, q *querySpec) bool {
 			if !carried[k] {
 				return true
 			}
+		}
+	}
+	return false
+}
+
+// shardWithoutGroupKey: on some node, one shard holds series of the queried metric none of which
+// carries all grouping keys, and another shard of the same node holds series that do.
+func (l *layoutSpec) shardWithoutGroupKey(d *dataset, q *querySpec) bool {
+	for ni, shards := range l.Nodes {
+		with, without := 0, 0
+		for _, sh := range shards {
+			has, any := false, false
+			for si, sd := range d.Series {
+				if sd.Metric != q.Metric || l.nodeOf[si] != ni || l.shardOf[si] != sh {
+					continue
+				}
+				any = true
+				all := true
+				for _, k := range q.GroupBy {
+					if _, ok := sd.Tags[k]; !ok {
+						all = false
+					}
+				}
+				has = has || all
+			}
+			if any && has {
+				with++
+			} else if any {
+				without++
+			}
+		}
+		if with > 0 && without > 0 {
+			return true
 		}
 	}
 	return false
@@ -235,7 +269,7 @@ func (e *env) build(idx int, l *layoutSpec) {
 		// metadata workers, C09) is written again under a new name.
 		e.retries++
 		if attempt >= 3 {
-			t.Fatalf("harness: layout %s does not read back after %d attempts: %s", l, attempt+1, bad)
+			t.Fatalf("a single node of layout %s answers differently from the naive model of the rows routed to it (layout written %d times, every time): %s\ndata: %+v", l, attempt+1, bad, d)
 		}
 	}
 	e.nc.SetLayout(l.db, e.opt, l.layoutMap(-1))
@@ -451,6 +485,14 @@ func checkReference(ref node.Result, m *modelOut) string {
 	return strings.Join(msgs, "\n")
 }
 
+// executions: a disagreement only counts when the same execution (same query, layout, topology and
+// delivery order) disagrees this many times in a row. Reason: on the tree the harness was written
+// against a leaf occasionally (order of 1 in 10^4 queries over two data families) reduces its down
+// sampling result twice when the data load stages of two families finish together, which doubles the
+// sums of that answer (reported with TestRegression_LeafReducesTwice); the property is about layouts,
+// not about that race.
+const executions = 3
+
 type caseBudget struct {
 	layouts, queries int
 	midSample        int // permutations tried through the intermediate node when there are 4 leaves (0 = all)
@@ -510,17 +552,25 @@ func runCase(t *rapid.T, group string, b caseBudget) {
 		m := evalModel(d, q)
 		// reference: 1 shard, 1 leaf, immediate delivery
 		e.nc.Permute = nil
-		rs, rerr := e.nc.Query(layouts[0].db, sql)
-		ref := node.Result{}
-		if rerr != nil {
-			if !strings.Contains(rerr.Error(), "not found") {
-				t.Fatalf("harness: the reference layout rejects %q: %v", sql, rerr)
+		var ref node.Result
+		for attempt := 1; ; attempt++ {
+			rs, rerr := e.nc.Query(layouts[0].db, sql)
+			ref = node.Result{}
+			if rerr != nil {
+				if !strings.Contains(rerr.Error(), "not found") {
+					t.Fatalf("harness: the reference layout rejects %q: %v", sql, rerr)
+				}
+			} else {
+				ref = node.Canon(rs)
 			}
-		} else {
-			ref = node.Canon(rs)
-		}
-		if msg := checkReference(ref, m); msg != "" {
-			t.Fatalf("reference layout (1 shard, 1 leaf) disagrees with the naive model\nquery: %s\n%s\ndata: %s", sql, msg, dataJSON)
+			msg := checkReference(ref, m)
+			if msg == "" {
+				break
+			}
+			if attempt == executions {
+				t.Fatalf("reference layout (1 shard, 1 leaf) disagrees with the naive model (%d executions)\nquery: %s\n%s\ndata: %s", executions, sql, msg, dataJSON)
+			}
+			ev.Class(group, "info:answer-not-reproduced-on-re-execution", 1)
 		}
 		qClasses := []string{"query:select=" + map[bool]string{true: "star", false: "list"}[q.All],
 			"query:groupby=" + map[bool]string{true: "tags", false: "none"}[len(q.GroupBy) > 0],
@@ -532,6 +582,27 @@ func runCase(t *rapid.T, group string, b caseBudget) {
 		}
 		if len(m.ambiguous) > 0 {
 			qClasses = append(qClasses, "query:has-order-ambiguous-first/last-cells")
+		}
+		if q.Metric >= 0 {
+			lacking := func(keys []string) bool {
+				for _, sd := range d.Series {
+					if sd.Metric != q.Metric {
+						continue
+					}
+					for _, k := range keys {
+						if _, ok := sd.Tags[k]; !ok {
+							return true
+						}
+					}
+				}
+				return false
+			}
+			if lacking(q.GroupBy) {
+				qClasses = append(qClasses, "query:group-by-key-some-series-lack")
+			}
+			if lacking(q.Cond.keys()) {
+				qClasses = append(qClasses, "query:condition-key-some-series-lack")
+			}
 		}
 		for li, l := range layouts[1:] {
 			e.runLayout(q, sql, m, ref, li+1, l, qClasses, midPick, nodePick, b, dataJSON)
@@ -557,6 +628,9 @@ func (e *env) runLayout(q *querySpec, sql string, m *modelOut, ref node.Result, 
 	}
 	classes := append([]string{}, qClasses...)
 	classes = append(classes, fmt.Sprintf("layout:shards=%d", l.Shards), fmt.Sprintf("layout:leaves=%d", nLeaves))
+	if len(q.GroupBy) > 0 && l.shardWithoutGroupKey(e.d, q) {
+		classes = append(classes, "layout:a-shard-holds-only-series-without-the-group-key-next-to-a-shard-with")
+	}
 	ambDiffers := 0
 
 	// (1) every delivery order at the root. The first run (canonical order = send order) also tells
@@ -576,16 +650,19 @@ func (e *env) runLayout(q *querySpec, sql string, m *modelOut, ref node.Result, 
 			}
 			return order
 		}
-		rs, err := e.xc.Query("root:1", l.db, sql)
-		obs := e.xc.observed()
-		if len(e.xc.Panics) > 0 {
-			t.Fatalf("panic while the root handled a response\nquery: %s\nlayout: %s\ndelivery: %v\n%s", sql, l, order, e.xc.Panics[0])
-		}
-		if msg, a := diff(ref, node.Canon(rs), err, m); msg != "" {
+		var obs []respObs
+		msg, a := e.repeat(func() (*commonmodels.ResultSet, error) {
+			rs, err := e.xc.Query("root:1", l.db, sql)
+			obs = e.xc.observed()
+			if len(e.xc.Panics) > 0 {
+				t.Fatalf("panic while the root handled a response\nquery: %s\nlayout: %s\ndelivery: %v\n%s", sql, l, order, e.xc.Panics[0])
+			}
+			return rs, err
+		}, ref, m)
+		if msg != "" {
 			fail("root -> leaves", order, msg, obs)
-		} else {
-			ambDiffers += a
 		}
+		ambDiffers += a
 		if len(obs) != nLeaves {
 			t.Fatalf("harness: %d responses at the root, layout has %d leaves: %+v", len(obs), nLeaves, obs)
 		}
@@ -649,12 +726,11 @@ func (e *env) runLayout(q *querySpec, sql string, m *modelOut, ref node.Result, 
 			for i, x := range p {
 				order[i] = names[x]
 			}
-			rs, err := e.nc.Query(l.db, sql)
-			if msg, a := diff(ref, node.Canon(rs), err, m); msg != "" {
+			msg, a := e.repeat(func() (*commonmodels.ResultSet, error) { return e.nc.Query(l.db, sql) }, ref, m)
+			if msg != "" {
 				fail("root -> leaves (sim/node cluster)", order, msg, nil)
-			} else {
-				ambDiffers += a
 			}
+			ambDiffers += a
 			if calls != 1 {
 				partial++
 			}
@@ -697,16 +773,19 @@ func (e *env) runLayout(q *querySpec, sql string, m *modelOut, ref node.Result, 
 			}
 			return order
 		}
-		rs, err := e.xc.Query("root:1", l.db, sql)
-		mobs := e.xc.observed()
-		if len(e.xc.Panics) > 0 {
-			t.Fatalf("panic while a response was handled\nquery: %s\nlayout: %s\ndelivery: %v\n%s", sql, l, order, e.xc.Panics[0])
-		}
-		if msg, a := diff(ref, node.Canon(rs), err, m); msg != "" {
+		var mobs []respObs
+		msg, a := e.repeat(func() (*commonmodels.ResultSet, error) {
+			rs, err := e.xc.Query("root:1", l.db, sql)
+			mobs = e.xc.observed()
+			if len(e.xc.Panics) > 0 {
+				t.Fatalf("panic while a response was handled\nquery: %s\nlayout: %s\ndelivery: %v\n%s", sql, l, order, e.xc.Panics[0])
+			}
+			return rs, err
+		}, ref, m)
+		if msg != "" {
 			fail("root -> intermediate -> leaves", order, msg, mobs)
-		} else {
-			ambDiffers += a
 		}
+		ambDiffers += a
 		toRoot, toMid := 0, 0
 		for _, o := range mobs {
 			switch o.Receiver {
@@ -733,6 +812,19 @@ func (e *env) runLayout(q *querySpec, sql string, m *modelOut, ref node.Result, 
 		map[string]any{"query": sql, "layout": l, "topology": "root->intermediate->leaves", "leafAnswers": kinds, "orders": len(midPerms), "data": e.d})
 	if ambDiffers > 0 {
 		ev.Class(e.group, "info:order-ambiguous-first/last-cell-differs-from-reference", ambDiffers)
+	}
+}
+
+// repeat executes the query and compares with the reference; a disagreement is returned only if
+// it shows in `executions` executions in a row (see executions).
+func (e *env) repeat(exec func() (*commonmodels.ResultSet, error), ref node.Result, m *modelOut) (msg string, ambiguousDiffers int) {
+	for attempt := 1; ; attempt++ {
+		rs, err := exec()
+		msg, ambiguousDiffers = diff(ref, node.Canon(rs), err, m)
+		if msg == "" || attempt == executions {
+			return msg, ambiguousDiffers
+		}
+		ev.Class(e.group, "info:answer-not-reproduced-on-re-execution", 1)
 	}
 }
 
